@@ -4,6 +4,7 @@ package main
 
 import (
 	"flag"
+	"fmt"
 	"math/rand"
 
 	"github.com/v-byte-cpu/sx/pkg/scan"
@@ -30,17 +31,30 @@ type obs struct {
 	OOR   string `json:"oor,omitempty"`
 }
 
+// newIter calls the real constructor; a panic becomes an error text (the property demands an error value)
+func newIter(n int64) (it *scan.VerifRangeIterator, kind string) {
+	defer func() {
+		if r := recover(); r != nil {
+			it, kind = nil, fmt.Sprint("panic: ", r)
+		}
+	}()
+	x, err := scan.VerifNewRangeIterator(n)
+	if err != nil {
+		if err == scan.VerifErrRangeSize() {
+			return nil, "RangeSize"
+		}
+		return nil, "InvalidGroup"
+	}
+	return x, ""
+}
+
 // walkCase walks the whole range (at most limit outputs) without recording it.
 func walkCase(n, seed, limit int64) obs {
 	o := obs{N: n, Seed: seed, K: int(limit), Class: "walk", Walk: true}
 	rand.Seed(seed)
-	it, err := scan.VerifNewRangeIterator(n)
-	if err != nil {
-		if err == scan.VerifErrRangeSize() {
-			o.Err = "RangeSize"
-		} else {
-			o.Err = "InvalidGroup"
-		}
+	it, kind := newIter(n)
+	if kind != "" {
+		o.Err = kind
 		return o
 	}
 	o.P, o.G, o.StartI = it.P().String(), it.G().String(), it.StartI().String()
@@ -75,13 +89,9 @@ func runCase(n, seed int64, k int, class string) obs {
 	priv := rand.New(rand.NewSource(seed))
 	o := obs{N: n, Seed: seed, K: k, Class: class, R1: priv.Int63(), R2: priv.Int63()}
 	rand.Seed(seed)
-	it, err := scan.VerifNewRangeIterator(n)
-	if err != nil {
-		if err == scan.VerifErrRangeSize() {
-			o.Err = "RangeSize"
-		} else {
-			o.Err = "InvalidGroup"
-		}
+	it, kind := newIter(n)
+	if kind != "" {
+		o.Err = kind
 		return o
 	}
 	o.P, o.G, o.StartI = it.P().String(), it.G().String(), it.StartI().String()
